@@ -22,6 +22,8 @@ const KW_FIELDS: [(&str, bool); 50] = [
 ];
 const KW_VARIANTS: [&str; 27] = ["Default", "Public", "Internal", "Static", "Import", "Return", "In", "Is", "Case", "Class", "Func", "Let", "Var", "Init", "Private", "Where", "While", "Switch", "Guard", "Defer", "Repeat", "Throw", "Catch", "Nil", "_1st", "_2Fast", "_9"];
 
+const KW_TYPES: &str = "#[typeshare]\npub struct Type { pub a: u8 }\n#[typeshare]\npub struct Protocol<T> { pub t: T, pub list: Vec<T> }\n#[typeshare]\npub enum Any { First, Second }\n#[typeshare]\npub struct QkwtypUser { pub a: Type, pub b: Vec<Type>, pub c: Option<Protocol<Type>>, pub d: HashMap<String, Any>, pub e: [Type; 2], pub f: Protocol<Vec<Any>> }\n#[typeshare]\npub type QkwtypAlias = Protocol<String>;\n#[typeshare]\npub struct QkwtypNewtype(pub Type);\n#[typeshare]\n#[serde(tag = \"t\", content = \"c\")]\npub enum QkwtypEnum { Plain(Type), Wrapped(Option<Protocol<Any>>), Fields { x: Type, y: Vec<Any> } }\n";
+
 /// (class, wire name): serde accepts any string as a rename
 const HOSTILE_WIRE_NAMES: [(&str, &str); 9] = [
     ("digit-leading", "2fa_code"), ("digit-only", "9"), ("empty", ""), ("space", "with space"), ("double-quote", "quo\"te"),
@@ -106,7 +108,8 @@ fn judge(case: &Case<Program>, rep: &mut Report) {
         rep.eval(1);
         rep.count(&format!("files_parsed_{lname}"), 1);
         let cfgclass = format!("header={}|prefix={}|package={}", !case.cfg.no_header, !case.cfg.prefix.is_empty(), if case.cfg.package.is_empty() { "none" } else if case.cfg.package.contains('.') { "dotted" } else { "single" });
-        rep.cell(format!("{lname}|{cfgclass}|multi={}", case.multi));
+        let kw_types = case.files.iter().any(|f| f.source.contains("QkwtypUser"));
+        rep.cell(format!("{lname}|{cfgclass}|multi={}|keyword-type-names={kw_types}", case.multi));
         match &facts.status {
             ParseStatus::Parsed(f) => {
                 rep.count("definitions_parsed", f.defs.len() as u64);
@@ -211,6 +214,10 @@ pub fn run(ctx: &Ctx) -> (Spec, Report) {
             }
             let src = prog.render(rng, &RenderOpts { vary: true, prelude: false, strip_typeshare: false });
             let src = if rng.chance(1, 4) { crate::model::relayout(&src, rng.range(1, 4)) } else { src };
+            // an eighth of the programs: user types whose own names are Swift keywords (legal Rust type names), defined and
+            // referred to from every kind of position, so that prefixing and escaping meet in declarations and references
+            let kw_types = rng.chance(1, 8);
+            let src = if kw_types { format!("{src}\n{KW_TYPES}") } else { src };
             let has_const = prog.items.iter().any(|i| matches!(i.kind, Kind::Const { .. }));
             let generic_enum = prog.items.iter().any(|i| matches!(i.kind, Kind::Enum { .. }) && !i.generics.is_empty());
             let generic_alias = prog.items.iter().any(|i| matches!(i.kind, Kind::Alias(_) | Kind::Newtype(_)) && !i.generics.is_empty());
@@ -293,7 +300,7 @@ pub fn run(ctx: &Ctx) -> (Spec, Report) {
     rep.count("corpus_inputs", n_in as u64);
     let spec = Spec {
         level: "exploration",
-        rule: format!("{n} generated programs mixing every supported feature (all item kinds, generics, renames incl. dashed keys, optionals, empty structs/enums, decorators, redaction, per-language type overrides, doc comments on every level, Swift/Python keyword fields and keyword-cased variants) x up to 6 languages x header/package/prefix/decorator settings, single- and multi-file, plus the {n_in} inputs of the snapshot corpus; each output file goes through CPython (compile + import under stub pydantic) or the language's strict declaration parser; distinct = (language, prefix?, package shape, multi-file?)"),
+        rule: format!("{n} generated programs mixing every supported feature (all item kinds, generics, renames incl. dashed keys, optionals, empty structs/enums, decorators, redaction, per-language type overrides, doc comments on every level, Swift/Python keyword fields and keyword-cased variants, user types named Type / Protocol / Any defined and referred to at 11 positions) x up to 6 languages x header/package/prefix/decorator settings, single- and multi-file, plus the {n_in} inputs of the snapshot corpus; each output file goes through CPython (compile + import under stub pydantic) or the language's strict declaration parser; distinct = (language, header?, prefix?, package shape, multi-file?, keyword type names?)"),
         assumptions: vec![
             "the five hand-written parsers accept the declaration subset typeshare emits and reject unterminated literals/comments, unbalanced delimiters and malformed declaration heads; files outside the subset are counted as inconclusive".into(),
             "keyword collisions are checked only where the backend promises escaping (Swift, Python)".into(),
